@@ -5,6 +5,7 @@ import AndaVerif.Proofs.BTreeRefine
 import AndaVerif.Proofs.BTreeFlush
 import AndaVerif.Proofs.Prefix
 import AndaVerif.Proofs.BTreeVol
+import AndaVerif.Proofs.BTreeConcLin
 /-
 Property C10 — the B-tree index equals an ordered multimap (theorems over `Model/OMap`,
 `Model/RangeQuery`, `Model/BTree`, `Model/BTreeFlush`; helper lemmas live in `Proofs/`).
@@ -208,5 +209,113 @@ def exV : Vol :=
     version := 5, savedVersion := 3, maxBucket := 1, insertCount := 3, deleteCount := 0, queryCount := 0 }
 example : exV.flushWrites = exW := by decide
 example : (exV.hasDirty || exV.pending) = true ∧ exV.generation = 5 ∧ exV.newManifest ≠ [] := by decide
+
+-- ------------------------------------------------------------------------------------------------
+-- threads (L3): every schedule of any number of insert / remove / compaction threads, at the
+-- granularity of the `verif::point` hooks (`Model/BTreeConc`)
+-- ------------------------------------------------------------------------------------------------
+open AndaVerif.BTreeConc
+
+/-- No lost key and no phantom key, in every configuration reachable under every schedule: a
+posting's key is in the ordered key set unless the thread that created the posting is between its
+`postings.entry` section and its btree section; a key of the ordered set has a posting unless the
+thread whose `remove_if` dropped the posting is before its btree section. At quiescence the two
+agree exactly. -/
+theorem btree_postings_bijection_sched (sh : Shared) (progs : List (List Op)) (hc : Clean sh) (s : List Nat) :
+    let c := Sched.runSchedule step s (initCfg sh progs)
+    (∀ k p, pget c.sh.post k = some p → k ∈ c.sh.btree ∨ Any c (willKey · k))
+    ∧ (∀ k, k ∈ c.sh.btree → (∃ p, pget c.sh.post k = some p) ∨ Any c (willUnkey · k))
+    ∧ (Quiescent c → ∀ k, k ∈ c.sh.btree ↔ ∃ p, pget c.sh.post k = some p) := by
+  intro c
+  have hi : Inv c := inv_sched sh progs hc s
+  refine ⟨hi.keyed, hi.posted, fun hq k => ⟨fun hk => ?_, fun ⟨p, hp⟩ => ?_⟩⟩
+  · rcases hi.posted k hk with hp | hw
+    · exact hp
+    · exact absurd hw (quiescent_no_obligation c hq _ (fun th hw e => by
+        obtain ⟨_, b, hb⟩ := hw; rw [e] at hb; cases hb))
+  · rcases hi.keyed k p hp with hk | hw
+    · exact hk
+    · exact absurd hw (quiescent_no_obligation c hq _ (fun th hw e => by
+        obtain ⟨_, s', b, hb⟩ := hw; rw [e] at hb; cases hb))
+
+/-- Nothing is lost: at quiescence (every thread between operations), after any schedule — with a
+compaction under the exclusive gate among the threads or not — every posting is non-empty,
+duplicate-free, has its key in the ordered key set and **is listed by the bucket that owns it**
+(`posting.0`), which is exactly what `serialize_bucket_snapshot` writes; in between, a non-empty
+posting is listed by its owner or an insert is about to list it there (except inside a
+compaction's rebuild, during which every other thread is outside the gate). -/
+theorem no_lost_posting_sched (sh : Shared) (progs : List (List Op)) (hc : Clean sh) (s : List Nat) :
+    let c := Sched.runSchedule step s (initCfg sh progs)
+    (Quiescent c → ∀ k p, pget c.sh.post k = some p →
+        p.ids ≠ [] ∧ p.ids.Nodup ∧ (p.bucket, k) ∈ c.sh.listed ∧ k ∈ c.sh.btree)
+    ∧ (Any c (fun th => th.pc = PC.cmp2) ∨
+        ∀ k p, pget c.sh.post k = some p → p.ids ≠ [] →
+          (p.bucket, k) ∈ c.sh.listed ∨ Any c (willList · k p.bucket))
+    ∧ (∀ (i : Nat) (th : Thread), c.threads[i]? = some th → th.pc.isCmp = true →
+        ∀ (j : Nat) (th' : Thread), c.threads[j]? = some th' → j ≠ i → th'.pc = PC.idle) := by
+  intro c
+  have hi : Inv c := inv_sched sh progs hc s
+  refine ⟨fun hq k p hp => ?_, hi.listedI, hi.excl⟩
+  have hne : p.ids ≠ [] := fun he =>
+    quiescent_no_obligation c hq _ (fun th hw e => by obtain ⟨_, b, hb⟩ := hw; rw [e] at hb; cases hb)
+      (hi.nonempty k p hp he)
+  refine ⟨hne, hi.nodup k p hp, ?_, ?_⟩
+  · rcases hi.listedI with hcmp | hl
+    · exact absurd hcmp (quiescent_no_obligation c hq _ (fun th hw e => by rw [e] at hw; cases hw))
+    · rcases hl k p hp hne with hin | hw
+      · exact hin
+      · exact absurd hw (quiescent_no_obligation c hq _ (fun th hw e => by
+          obtain ⟨_, h1 | h1 | h1⟩ := hw
+          · obtain ⟨n, hn⟩ := h1; rw [e] at hn; cases hn
+          · rw [e] at h1; cases h1
+          · obtain ⟨s', hs'⟩ := h1; rw [e] at hs'; cases hs'))
+  · rcases hi.keyed k p hp with hk | hw
+    · exact hk
+    · exact absurd hw (quiescent_no_obligation c hq _ (fun th hw e => by
+        obtain ⟨_, s', b, hb⟩ := hw; rw [e] at hb; cases hb))
+
+/-- A unique index never holds two ids under one key, in any configuration under any schedule. -/
+theorem unique_enforced_sched (sh : Shared) (progs : List (List Op)) (hc : Clean sh) (hu : sh.unique = true)
+    (s : List Nat) (k : Int) (p : Posting)
+    (hp : pget (Sched.runSchedule step s (initCfg sh progs)).sh.post k = some p) : p.ids.length ≤ 1 :=
+  (inv_sched sh progs hc s).uniq (by rw [unique_sched]; exact hu) k p hp
+
+/-- Nothing is lost or duplicated, and the outcome is sequential: after every schedule the pair set
+the index denotes is the one obtained by applying the element operations **in the order of their
+linearisation actions** (`insert`: the `postings.entry` section, `remove`: the `get_mut` section) to
+the initial pair set; on a non-unique index every one of them had, at that place, exactly the effect
+the sequential operation has there (an insert adds its pair iff absent, a remove drops it iff
+present). -/
+theorem conc_result_is_sequential (sh : Shared) (progs : List (List Op)) (hc : Clean sh)
+    (r0 : List (Int × Nat)) (hr : ∀ k d, (k, d) ∈ r0 ↔ Pairs sh k d) (s : List Nat) :
+    let c := Sched.runSchedule step s (initCfg sh progs)
+    (∀ k d, Pairs c.sh k d ↔ (k, d) ∈ applyHist r0 c.hist)
+    ∧ (sh.unique = false → EffectsSeq r0 c.hist) := by
+  intro c
+  have hl := (inv_lin_sched sh progs r0 hc hr s).2
+  exact ⟨fun k d => (hl.pairs k d).symm, fun hu => hl.effects (by rw [unique_sched]; exact hu)⟩
+
+/-- non-vacuity: insert ∥ remove of the same pair, the remove emptying and erasing the posting
+between the insert's posting section and its btree section — the guarded btree insert is skipped, no
+phantom key, and the history reads insert-then-remove. -/
+def exEmpty : Shared := ⟨false, [], [], [], 0⟩
+example : Clean exEmpty := ⟨by simp [exEmpty, pget], by simp [exEmpty], by simp [exEmpty, pget],
+  by simp [exEmpty, pget], by simp [exEmpty, pget], by simp [exEmpty, pget]⟩
+example :
+    let c := Sched.runSchedule step [0, 1, 1, 1, 1, 0, 0, 0, 0] (initCfg exEmpty [[.insert 1 5 false], [.remove 1 5]])
+    c.threads.map (·.results) = [[.okB true], [.removed true]] ∧ c.sh.btree = [] ∧ c.sh.post.length = 0
+      ∧ c.hist.map (fun e => (e.tid, e.effect)) = [(1, true), (0, true)] := by decide
+
+/-- Two deviations of a *returned value* from the sequential one, both only when two threads work on
+the same pair: (a) an insert whose fresh posting is removed by another thread before its spilling
+bucket section returns `Ok(false)` although it added the pair; (b) on a unique index an insert that
+meets the emptied-but-not-yet-erased posting of a concurrent remove answers `AlreadyExists` even for
+the id that was just removed. Contents and effects stay sequential (theorem above). -/
+theorem insert_result_anomalies_same_pair :
+    (Sched.runSchedule step [0, 1, 1, 0, 0, 0, 0, 1, 1] (initCfg exEmpty [[.insert 1 5 true], [.remove 1 5]])).threads.map (·.results)
+      = [[.okB false], [.removed true]]
+    ∧ (Sched.runSchedule step [0, 1, 0, 0, 0] (initCfg ⟨true, [(5, ⟨0, [1]⟩)], [5], [(0, 5)], 0⟩
+        [[.remove 1 5], [.insert 1 5 false]])).threads.map (·.results) = [[.removed true], [.errExists]] := by
+  decide
 
 end AndaVerif.C10
